@@ -25,6 +25,9 @@ type TGCase struct {
 	// NestEvery > 0: during every NestEvery-th parse the action of an early
 	// reduction starts a nested parse of the next input (Go variants)
 	NestEvery int `json:"nest_every,omitempty"`
+	// (rules with Spec.Rules[i].NoAct are written without any action: their
+	// reductions are not recorded, so only the differential oracle (C08) and the
+	// verdict oracles apply to such a case)
 	Text     string     `json:"grammar_text,omitempty"` // canonical rendering, informational
 }
 
@@ -392,10 +395,21 @@ func evalTG(c *Ctx, cs *TGCase, vr map[string]*gen.VRes, props map[string]bool) 
 		add("C12", "", nil, "generation succeeded for some variants and failed for others")
 		return out
 	}
+	nBuilt := 0
+	for _, v := range variants {
+		if vr[v.Name].Built {
+			nBuilt++
+		}
+	}
 	for _, v := range variants {
 		r := vr[v.Name]
 		if !r.Built {
 			add("C16", v.Name, nil, "variant %s: generated file does not build/load:\n%s", v.Name, clip(r.BuildErr, 1200))
+			if nBuilt > 0 && looksLikeLanguageError(v, r.BuildErr) {
+				// the same user code (driver epilogue, which only uses the documented
+				// API of each form) builds against some variants and not against this one
+				add("C08", v.Name, nil, "variant %s cannot be built with the driver code that the other variants accept: it does not offer the same parser interface\n%s", v.Name, clip(r.BuildErr, 800))
+			}
 			c.Class("does-not-build")
 			return out
 		}
@@ -414,6 +428,10 @@ func evalTG(c *Ctx, cs *TGCase, vr map[string]*gen.VRes, props map[string]bool) 
 	}
 	c.Class("built-and-run")
 	c.Class("class:" + rf.class)
+	hasNoAct := false
+	for _, r := range s.Rules {
+		hasNoAct = hasNoAct || r.NoAct
+	}
 	for i, in := range cs.Inputs {
 		w, unk := wordOf(s, in)
 		mem := !unk && rf.g.Member(w)
@@ -430,6 +448,8 @@ func evalTG(c *Ctx, cs *TGCase, vr map[string]*gen.VRes, props map[string]bool) 
 			if r.Verdict == "accept" {
 				if unk {
 					add("C01", v.Name, in, "variant %s accepted %s, which contains a token code that is not declared", v.Name, inputNames(s, in))
+				} else if hasNoAct {
+					// reductions of action-less rules are not recorded: no derivation to check
 				} else if err := rf.g.CheckDerivation(r.Trace, w); err != nil {
 					add("C01", v.Name, in, "variant %s accepted %s but its reductions %v are not a rightmost derivation of the input in reverse: %v", v.Name, inputNames(s, in), r.Trace, err)
 				} else if len(r.Trace) >= 3 && props["C01"] {
@@ -472,7 +492,7 @@ func evalTG(c *Ctx, cs *TGCase, vr map[string]*gen.VRes, props map[string]bool) 
 				}
 			}
 			// ---- C07
-			if r.Verdict == "accept" && !unk {
+			if r.Verdict == "accept" && !unk && !hasNoAct {
 				// the tree: from the reference parser when the parse is unique,
 				// otherwise from the (C01-validated) reductions of the run itself
 				var tree *ref.Tree
